@@ -1,11 +1,11 @@
-// counterexamples for harness c12::c12_p_quant_single_f64_n2 (property C12); replay: ./check C12 --replay <this file>
+// counterexamples for harness c12::c12_partition_opt_sorted_beyond_n0n1n2 (property C12); replay: ./check C12 --replay <this file>
 // features: c12
 #![allow(unused_imports)]
 use crate::c12::*;
 
-/// Test generated for harness `c12::c12_p_quant_single_f64_n2` 
+/// Test generated for harness `c12::c12_partition_opt_sorted_beyond_n0n1n2` 
 ///
-/// Check for `assertion`: ""quantile is null only when there is no valid element""
+/// Check for `assertion`: ""partition yields exactly k+1 entries""
 ///
 /// # Warning
 ///
@@ -19,16 +19,14 @@ use crate::c12::*;
 /// logic.
 
 #[test]
-fn kani_concrete_playback_c12_p_quant_single_f64_n2_10137965577692839206() {
+fn kani_concrete_playback_c12_partition_opt_sorted_beyond_n0n1n2_1298016115629057208() {
     let concrete_vals: Vec<Vec<u8>> = vec![
         // 0
         vec![0],
-        // 1
-        vec![1],
-        // 1
-        vec![1, 0, 0, 0],
+        // 0
+        vec![0],
         // 0
         vec![0],
     ];
-    kani::concrete_playback_run(concrete_vals, c12_p_quant_single_f64_n2);
+    kani::concrete_playback_run(concrete_vals, c12_partition_opt_sorted_beyond_n0n1n2);
 }
